@@ -74,6 +74,7 @@ FAMILIES = {
     "C43": ["lockset"],
     "C42": ["catchsched"],
     "C09": ["guard"],
+    "C30": ["tramp"],
     "C08": ["opacity"],
     "C05": ["op"],
     "C06": ["op"],
@@ -107,6 +108,8 @@ def units_for(prop, tier):
         us += forward_units(prop)
     if "class" in fams:
         us += class_units(prop)
+    if "tramp" in fams:
+        us.append({"runner": "tramp", "prop": prop, "id": "reactivex/scheduler/trampoline.py::Trampoline"})
     if "opacity" in fams:
         us.append({"runner": "opacity", "prop": prop, "id": f"opacity-conditions/{prop}"})
     if "guard" in fams:
